@@ -14,7 +14,7 @@ import z3
 from . import theory as T
 from .values import (SV, Ver, DictVal, SetVal, ListVal, PObj, ItemsView, AssignVal, Closure, BoundMethod, ClassRef,
                      BuiltinClass, Builtin, ModuleRef, SuperRef, SeqIter, Unsupported, PathInfeasible, VerifBug,
-                     PyExc, is_num, zreal, zint, is_intlike)
+                     PyExc, is_num, zreal, zint, is_intlike, Opaque)
 from . import folds as FO
 
 
@@ -709,8 +709,7 @@ class Engine:
         if s.orelse:
             raise Unsupported("for/else")
         it = self.eval(s.iter, fr)
-        fr.loop_ordinal += 1
-        ordinal = fr.loop_ordinal
+        ordinal = self.static_ordinal(fr, s, ast.For)
         conc = self.concrete_iter(it)
         if conc is not None:
             for item in conc:
@@ -723,6 +722,30 @@ class Engine:
                     continue
             return
         self.symbolic_for(s, it, fr, ordinal)
+
+    def static_ordinal(self, fr, node, kind):
+        """1-based position of node among the nodes of that kind in the enclosing function (source order,
+        nested function bodies excluded)"""
+        fd = fr.closure.fdef if fr.closure is not None else None
+        if fd is None:
+            return 0
+        cache = getattr(fd, "_qvc_ord", None)
+        if cache is None:
+            cache = {}
+            counters = {}
+
+            def walk(n, top):
+                for ch in ast.iter_child_nodes(n):
+                    if isinstance(ch, (ast.FunctionDef, ast.Lambda)):
+                        continue
+                    for kd in (ast.For, ast.GeneratorExp, ast.While):
+                        if isinstance(ch, kd):
+                            counters[kd] = counters.get(kd, 0) + 1
+                            cache[id(ch)] = counters[kd]
+                    walk(ch, False)
+            walk(fd, True)
+            fd._qvc_ord = cache
+        return cache.get(id(node), 0)
 
     def concrete_iter(self, it):
         if isinstance(it, (tuple, list)):
@@ -859,9 +882,7 @@ class Engine:
             return self.fresh("int", hint)
         if is_num(v):
             return self.fresh("real", hint)
-        if v is None:
-            raise Unsupported("loop-modified variable %s is None at loop entry" % hint)
-        raise Unsupported("cannot havoc loop-modified variable %s of type %s" % (hint, type(v).__name__))
+        return Opaque("havocked %s (was %s)" % (hint, type(v).__name__))
 
     def havoc_object(self, o, hint):
         if isinstance(o, DictVal):
@@ -924,6 +945,9 @@ class Engine:
             env = dict(fr.locals)
             env["visited"] = ghost
             env[gname] = ghost
+            if ckind == "dict":
+                env["coll"] = coll
+                env["coll%d" % ordinal] = coll
             t = self.tobool(self.eval_spec(inv_src, env, fr))
             return z3.BoolVal(t) if isinstance(t, bool) else t
         # ---- init
@@ -1141,9 +1165,18 @@ class Engine:
 
     def ex_BoolOp(self, n, fr):
         if self.spec:
-            vals = [self.tobool(self.eval(v, fr)) for v in n.values]
-            vals = [z3.BoolVal(v) if isinstance(v, bool) else v for v in vals]
-            return SV(z3.And(*vals) if isinstance(n.op, ast.And) else z3.Or(*vals), "bool")
+            vals = []
+            isand = isinstance(n.op, ast.And)
+            for vn in n.values:
+                t = self.tobool(self.eval(vn, fr))
+                if isinstance(t, bool):
+                    if t != isand:          # False in an `and`, True in an `or`: decided (short-circuit)
+                        return t
+                    continue
+                vals.append(t)
+            if not vals:
+                return isand
+            return SV(z3.And(*vals) if isand else z3.Or(*vals), "bool")
         last = None
         for i, vn in enumerate(n.values):
             last = self.eval(vn, fr)
